@@ -2,8 +2,9 @@
 
 Decided: every acquire() override returns a value that passed a bounds sanitiser on every
 path, the shape of the truncation limits of the acquisition noise, the row count, evidence
-pairing, complementary slices of the stored acquisition, synchronous gating.
-Not decided: acquisition gradients, optimiser end points.
+pairing, complementary slices of the stored acquisition, synchronous gating, acquisition
+gradients of the closed-form rules (symbolic derivative) and the MRO pairing of evaluate /
+evaluate_gradient.  Not decided: the numerical gradient of ExpIntVar, optimiser end points.
 """
 
 import ast
